@@ -739,6 +739,9 @@ func (c *m2) userCall(e *ast.CallExpr, recv, name string, recvId *ast.Ident) str
 }
 
 func (c *m2) callText(e *ast.CallExpr, s *fsig) string {
+	if s.structParams {
+		c.fail(e, "call of `%s`, which has struct parameters", s.name)
+	}
 	parts := []string{s.name}
 	if s.fuel {
 		c.usesFuel = true
